@@ -493,11 +493,19 @@ def _match_unicode_identifier(
     # This prevents '<->' (tension operator alias) from being consumed.
     if end < len(content) and content[end] == "<":
         qualifier_start = end + 1
+        # GH#300: the emitter treats NAME<> (empty qualifier, from FOO[]) as canonical,
+        # so the lexer must read it back as one identifier token.
+        if qualifier_start < len(content) and content[qualifier_start] == ">":
+            end = qualifier_start + 1
         # Qualifier must start with a valid identifier start char
-        if qualifier_start < len(content) and _is_valid_identifier_start(content[qualifier_start]):
+        elif qualifier_start < len(content) and _is_valid_identifier_start(content[qualifier_start]):
             qualifier_end = qualifier_start + 1
-            # Consume remaining qualifier characters (identifier body chars)
-            while qualifier_end < len(content) and _is_valid_identifier_char(content[qualifier_end]):
+            # Consume remaining qualifier characters (identifier body chars).
+            # GH#300: commas separate multiple arguments (NEVER<A,B,C>), which the
+            # emitter's ANNOTATION_PATTERN already emits bare.
+            while qualifier_end < len(content) and (
+                _is_valid_identifier_char(content[qualifier_end]) or content[qualifier_end] == ","
+            ):
                 qualifier_end += 1
             # Strip trailing hyphens from qualifier (same as identifier rule)
             while qualifier_end > qualifier_start + 1 and content[qualifier_end - 1] == "-":
